@@ -31,11 +31,12 @@ def is_finite_f(v: F) -> bool:
 
 class ValueGen:
     def __init__(self, codec: Codec, rnd: random.Random, finite_only: bool = False, json_safe: bool = False,
-                 max_len: int = 6, py_safe: bool = True):
+                 max_len: int = 6, py_safe: bool = True, quiet_nan_only: bool = False):
         self.c, self.r = codec, rnd
         self.finite_only = finite_only or json_safe
         self.json_safe = json_safe
         self.max_len = max_len
+        self.quiet_nan_only = quiet_nan_only   # CPython turns signalling NaNs into quiet ones (float32<->double)
         self.py_safe = py_safe   # keep dates/datetimes within what every target can represent
 
     # ------------------------------------------------------------ primitives
@@ -110,6 +111,10 @@ class ValueGen:
                 v = F(r.getrandbits(w), w)
             if self.finite_only and not math.isfinite(v.value):
                 continue
+            if self.quiet_nan_only and math.isnan(v.value):
+                quiet = (v.bits >> (22 if w == 32 else 51)) & 1
+                if not quiet:
+                    continue
             return v
         return F(0, w)
 
